@@ -64,6 +64,8 @@ func replayAny(id, path string) int {
 	var doc struct{ Layer string }
 	json.Unmarshal(data, &doc)
 	switch doc.Layer {
+	case "crash":
+		return replayCrash(id, path)
 	case "R-race":
 		return layerr.ReplayRace(path)
 	case "C":
